@@ -333,6 +333,8 @@ def check(ctx, rep):
         if ic is None:
             continue
         src = strip(ic[2][0])
+        if not lp["only_exit"]:
+            continue        # a loop that can be left early does not visit every round / every digit
         if src[0] == "agg" and src[2] == "std::ops::Range":
             if src[4][0][:2] == ("int", 0) and strip(src[4][1]) == ("param", 2):
                 outer = lp
@@ -362,7 +364,12 @@ def check(ctx, rep):
             dig_ok = len(ev) == 1 and strip(ev[0]["args"][1]) == strip(lp["elem"])
             # (the source was peeled down to the cell through element-preserving adaptors only)
             plain = (lp["resolved"] or "").startswith(("<std::slice::Iter<", "<std::iter::Copied<", "<std::iter::Cloned<"))
-            good = round_ok and xy_ok and dig_ok and plain
+            # every digit is entered (nothing in front of enter_value lets an iteration skip it), and
+            # every round reaches the digit loop
+            idom_ = cfg.dominators(body)
+            every_digit = len(ev) == 1 and all(cfg.dominates(idom_, ev[0]["site"][1], t_) for t_, h_ in cfg.back_edges(body) if h_ == lp["next_bb"])
+            every_round = all(cfg.dominates(idom_, lp["next_bb"], t_) for t_, h_ in cfg.back_edges(body) if h_ == outer["next_bb"])
+            good = round_ok and xy_ok and dig_ok and plain and every_digit and every_round
     how = "for each round the digits of cell (x, y) = coordinates(round) are entered in order"
     fe = [i for i in se.term_info.values() if i.get("k") == "call" and (i["name"] == "std::iter::Iterator::for_each" or i["name"].endswith(" as std::iter::Iterator>::for_each") and i["name"].startswith(("<std::slice::Iter<", "<std::iter::Copied<", "<std::iter::Cloned<"))) and util.is_call(_same_elements(i["args"][0]), MC + "::get_number_at_coordinates")]
     if outer is not None and inner is None and len(fe) == 1:
